@@ -271,8 +271,7 @@ def _buffered(ctx):
         calls = [n for n in ast.walk(m.node) if isinstance(n, ast.Call)
                  and ast.unparse(n.func) == "self.writer.append_data"]
         if name == "_write_buffer":
-            ctx.floor("C13d-flush-sites", len(calls), 2)
-            continue
+            continue        # judged below (C13d-flush-bounds / forced-flush)
         ctx.check(not calls, "C13d-rows-only-leave-through-the-buffer", m,
                   f"{name} never hands rows to the inner writer directly",
                   f"{name} calls self.writer.append_data directly: rows "
@@ -280,38 +279,82 @@ def _buffered(ctx):
                   "longer has the rows in append order", node=m.node)
     wb = cls.methods["_write_buffer"]
     cfg = CFG(wb.node)
-    whiles = [n for n in ast.walk(wb.node) if isinstance(n, ast.While)]
-    ctx.require(len(whiles) == 1, f"{wb.qual}: flush loop not found")
-    w = whiles[0]
-    ok_t = ast.unparse(w.test) == "len(self.buffer) >= self.buffer_size"
-    flush = [n for n in ast.walk(w) if isinstance(n, ast.Call)
-             and ast.unparse(n.func) == "self._buffer_slice"]
-    kws = [{k.arg: ast.unparse(k.value) for k in c.keywords} for c in flush]
-    ends = [k.get("end") for k in kws if "end" in k]
-    starts = [k.get("start") for k in kws if "start" in k]
-    ok_b = ends == ["self.buffer_size"] and starts == ["self.buffer_size"]
-    ctx.check(ok_t and ok_b, "C13d-flush-bounds", wb,
+    du = DefUse(prog, wb)
+    T = Terms(du)
+    SELF = ("param", "self")
+    BSIZE = ("attr", SELF, "buffer_size")
+
+    def slice_call(t):
+        """keyword dict of self._buffer_slice(...) (positional start, end,
+        as_dataframe mapped to their names), else None"""
+        if t[0] == "mcall" and t[1] == SELF and t[2] == "_buffer_slice":
+            kw = dict(zip(("start", "end", "as_dataframe"), t[3]))
+            kw.update(dict(t[4]))
+            return {k: v for k, v in kw.items() if v != ("const", None)
+                    and not (k == "as_dataframe" and v == ("const", False))}
+        return None
+
+    appends = []
+    for n in ast.walk(wb.node):
+        if isinstance(n, ast.Call) and ast.unparse(n.func) == \
+                "self.writer.append_data" and len(n.args) == 1:
+            appends.append((n, slice_call(T.of(n.args[0])),
+                            set(cfg.conditions(n))))
+    stores = [(st, T.of(v), set(cfg.conditions(st)))
+              for (r, a_, v, st) in du.attr_stores
+              if r == "self" and a_ == "buffer"]
+    FULL = "self.buffer_size <= len(self.buffer)"
+    blk_a = [x for x in appends if x[1] is not None and "end" in x[1]]
+    blk_s = [x for x in stores if slice_call(x[1]) is not None
+             and "start" in slice_call(x[1])]
+    ok_b = (len(blk_a) == 1 and len(blk_s) == 1
+            and blk_a[0][1] == {"end": BSIZE,
+                                "as_dataframe": ("const", True)}
+            and slice_call(blk_s[0][1]) == {"start": BSIZE}
+            and FULL in blk_a[0][2] and blk_a[0][2] == blk_s[0][2]
+            and cfg.enclosing(blk_a[0][0], (ast.While,)) is not None
+            and cfg.enclosing(blk_a[0][0], (ast.While,)) is cfg.enclosing(
+                blk_s[0][0], (ast.While,)))
+    ctx.check(ok_b, "C13d-flush-bounds", wb,
               "while the buffer holds a full block, the first buffer_size "
               "rows are written and exactly the rest is kept (same bound)",
-              f"loop test '{ast.unparse(w.test)}'; written end={ends}, "
-              f"kept start={starts}", node=w)
-    # order inside the loop: write first, then shrink
-    body = w.body
-    ok_o = len(body) == 2 and "self.writer.append_data" in ast.unparse(
-        body[0]) and ast.unparse(body[1]).startswith("self.buffer = ")
-    ctx.check(ok_o, "C13d-flush-order", wb,
-              "the block is written before the buffer is shortened",
-              f"{[ast.unparse(b)[:50] for b in body]}", node=w)
-    forced = [s for s in wb.node.body if isinstance(s, ast.If)
-              and "force" in ast.unparse(s.test)]
-    ok_f = len(forced) == 1 and ast.unparse(forced[0].test) == \
-        "force and len(self.buffer) > 0" and [
-            ast.unparse(x) for x in forced[0].body] == [
-            "self.writer.append_data(self._buffer_slice(as_dataframe=True))",
-            "self.buffer = None"]
+              "block writes: " + str([(x[1], sorted(x[2])) for x in blk_a])
+              + "; kept: " + str([(slice_call(x[1]), sorted(x[2]))
+                                  for x in blk_s]),
+              node=blk_a[0][0] if blk_a else wb.node)
+    if ok_b:
+        w = cfg.enclosing(blk_a[0][0], (ast.While,))
+        ok_o = cfg.every_path_passes(
+            cfg.node_of(w).id, cfg.node_of(blk_s[0][0]).id,
+            {cfg.node_of(cfg.stmt_of(blk_a[0][0])).id})
+        ctx.check(ok_o, "C13d-flush-order", wb,
+                  "the block is written before the buffer is shortened",
+                  "the buffer is shortened on a path that has not written "
+                  "the block", node=w)
+    NONEMPTY = "0 < len(self.buffer)"
+    fa = [x for x in appends if x[1] is not None and "end" not in x[1]
+          and "start" not in x[1]]
+    fs = [x for x in stores if x[1] == ("const", None)]
+    ok_f = (len(fa) == 1 and len(fs) == 1
+            and fa[0][1] == {"as_dataframe": ("const", True)}
+            and {"force", NONEMPTY} <= fa[0][2] and fa[0][2] == fs[0][2]
+            and fa[0][2] <= {"force", NONEMPTY, "self.buffer is not None"}
+            and cfg.every_path_passes(
+                cfg.entry.id, cfg.node_of(fs[0][0]).id,
+                {cfg.node_of(cfg.stmt_of(fa[0][0])).id})
+            and len(appends) == 2 and len(stores) == 2)
+    # the forced part comes after the block loop
+    if ok_f and ok_b:
+        ok_f = cfg.every_path_passes(
+            cfg.entry.id, cfg.node_of(cfg.stmt_of(fa[0][0])).id,
+            {cfg.node_of(cfg.enclosing(blk_a[0][0], (ast.While,))).id})
     ctx.check(ok_f, "C13d-forced-flush", wb,
-              "a forced flush writes everything that is left and empties "
-              "the buffer", "forced flush changed", node=wb.node)
+              "a forced flush writes everything that is left (after the "
+              "full blocks) and empties the buffer",
+              "whole-buffer writes: "
+              + str([(x[1], sorted(x[2])) for x in fa])
+              + "; buffer resets: " + str([sorted(x[2]) for x in fs]),
+              node=wb.node)
     bs = cls.methods["_buffer_slice"]
     sl = [ast.unparse(n) for n in ast.walk(bs.node)
           if isinstance(n, ast.Subscript) and isinstance(n.slice, ast.Slice)]
@@ -334,19 +377,31 @@ def _buffered(ctx):
               "some path through append_data returns without "
               "_write_buffer()", node=ap.node)
     # new rows go behind the buffered ones
-    cat = [n for n in ast.walk(ap.node) if isinstance(n, ast.Call)
-           and ast.unparse(n.func) == "pd.concat"]
-    ok_c = len(cat) == 1 and ast.unparse(cat[0].args[0]) == \
-        "[self.buffer, data]" and const_value(
-            {k.arg: k.value for k in cat[0].keywords}.get(
-                "ignore_index")) is True
+    aT = Terms(DefUse(prog, ap))
+    BUF = ("attr", ("param", "self"), "buffer")
+    DATA = ("param", ap.params[1])
+
+    def leaves(t):
+        if t[0] == "phi":
+            return [y for x in t[1] for y in leaves(x)]
+        if t[0] == "ifexp":
+            return leaves(t[2]) + leaves(t[3])
+        return [t]
+
+    cat = [aT.of(n) for n in ast.walk(ap.node) if isinstance(n, ast.Call)
+           and ast.unparse(n.func) in ("pd.concat", "pandas.concat")]
+    ok_c = len(cat) == 1 and cat[0][2][:1] == (("list", (BUF, DATA)),) and \
+        dict(cat[0][3]).get("ignore_index") == ("const", True) and \
+        dict(cat[0][3]).get("axis", ("const", 0)) == ("const", 0)
     aug = [n for n in ast.walk(ap.node) if isinstance(n, ast.AugAssign)]
-    ok_c = ok_c and len(aug) == 1 and ast.unparse(aug[0]) == \
-        "self.buffer += data"
-    npa = [n for n in ast.walk(ap.node) if isinstance(n, ast.Call)
-           and ast.unparse(n.func) == "np.append"]
-    ok_c = ok_c and len(npa) == 1 and [ast.unparse(a) for a in npa[0].args
-                                       ] == ["self.buffer", "data"]
+    ok_c = ok_c and len(aug) == 1 and isinstance(
+        aug[0].op, ast.Add) and ast.unparse(aug[0].target) == \
+        "self.buffer" and all(
+            x in (DATA, ("list", (DATA,))) for x in leaves(aT.of(
+                aug[0].value)))
+    npa = [aT.of(n) for n in ast.walk(ap.node) if isinstance(n, ast.Call)
+           and ast.unparse(n.func) in ("np.append", "numpy.append")]
+    ok_c = ok_c and len(npa) == 1 and npa[0][2] == (BUF, DATA)
     ctx.check(ok_c, "C13d-append-order", ap,
               "new rows are placed behind the rows already buffered, for "
               "all three buffer kinds", "buffer concatenation order changed",
